@@ -144,7 +144,7 @@ func TestVerifC13(t *testing.T) {
 	p.WSync = 14
 	p.WFailover = 2
 	p.WLeave = 6
-	n := r.N(800, 25000)
+	n := r.N(800, 15000)
 	for ci := 0; ci < n; ci++ {
 		rng := r.Rand(ci)
 		cfg := gGenConfig(rng, p, fmt.Sprintf("g%d", ci))
